@@ -329,7 +329,7 @@ def npmConstraintText : Bytes :=
 example : (parseConstraint .npm npmConstraintText).toOption.map (·.set) = some npmSet := by decide +kernel
 
 theorem npmV_bound (ai : Bool) (cnt : Int) (nums : List Int) (pre : List Bytes) (hl : nums.length ≤ 3)
-    (hn : ∀ x ∈ nums, NumOk ai x) (hp : ∀ i ∈ pre, IdentOk i = true) : IsBound .npm ai (npmV cnt nums pre) :=
+    (hn : ∀ x ∈ nums, NumOk ai x) (hp : ∀ i ∈ pre, IdentOk .npm i = true) : IsBound .npm ai (npmV cnt nums pre) :=
   ⟨rfl, rfl, Or.inl hl, hn, (fun h => by cases h), hp⟩
 
 /-- Non-vacuity of `set_roundtrip_partial`'s hypothesis on a three-span set with '∞' bounds,
